@@ -52,12 +52,12 @@ func Owned() bool { mu.Lock(); defer mu.Unlock(); return owned }
 func stream(site string, n int) []byte {
 	// caller holds mu
 	Draws = append(Draws, Draw{site, n})
-	if q := forced[site]; len(q) > 0 {
+	// forced values are matched by length, whichever call site draws them (so that they keep working when
+	// the repository moves a draw from one random source to another)
+	if q := forced["bytes"]; len(q) > 0 && len(q[0]) == n && site != "source" {
 		v := q[0]
-		forced[site] = q[1:]
-		out := make([]byte, n)
-		copy(out, v)
-		return out
+		forced["bytes"] = q[1:]
+		return append([]byte{}, v...)
 	}
 	out := make([]byte, 0, n+32)
 	for len(out) < n {
